@@ -160,6 +160,49 @@ impl Reader<Vec<u8>> for DequeReader {
     }
 }
 
+/// A conforming reader whose `bytes()` never succeeds (the trait only says "attempt"; a scatter / gather reader asked
+/// for a run that straddles two buffers answers like this).  Everything else is the deque reader.  A decoder may answer
+/// such a reader with an error; it may not answer it with a different value.
+pub struct RefusingReader {
+    inner: DequeReader,
+}
+
+impl RefusingReader {
+    pub fn new(data: &[u8]) -> Self {
+        RefusingReader { inner: DequeReader::new(data) }
+    }
+}
+
+impl Reader<Vec<u8>> for RefusingReader {
+    fn is_empty(&self) -> bool {
+        self.inner.is_empty()
+    }
+    fn len(&self) -> usize {
+        self.inner.len()
+    }
+    fn subreader(&mut self, length: usize) -> Self {
+        RefusingReader { inner: self.inner.subreader(length) }
+    }
+    fn bytes(&mut self, _length: usize) -> Option<Vec<u8>> {
+        None
+    }
+    unsafe fn read_u8_unchecked(&mut self) -> u8 {
+        self.inner.read_u8_unchecked()
+    }
+    unsafe fn read_u16_be_unchecked(&mut self) -> u16 {
+        self.inner.read_u16_be_unchecked()
+    }
+    unsafe fn read_u32_be_unchecked(&mut self) -> u32 {
+        self.inner.read_u32_be_unchecked()
+    }
+    unsafe fn read_u64_be_unchecked(&mut self) -> u64 {
+        self.inner.read_u64_be_unchecked()
+    }
+    fn skip_bytes(&mut self, length: usize) {
+        self.inner.skip_bytes(length)
+    }
+}
+
 /// Writer that records every positional overwrite (offset, length) — C09.
 #[derive(Default)]
 pub struct LoggingWriter {
